@@ -18,6 +18,8 @@
      with a Section variable. *)
 From DS Require Import Base.Prelude.
 From Coq Require Import QArith_base.
+#[local] Close Scope Q_scope.
+#[local] Open Scope Z_scope.
 
 Record coord := { c_bits : Z; c_ud : option Z }.
 Record entry := { e_t : Z; e_az : coord; e_el : coord }.
@@ -31,7 +33,8 @@ Record header := {
   h_interp : Z;          (* 4 = spline *)
   h_track : Z;           (* 1 = azimuth/elevation *)
   h_mode : Z;            (* 1 = new table, 2 = append *)
-  h_start : option Z     (* see above *)
+  h_start : option Z;    (* see above *)
+  h_room : Z             (* microseconds from that start time to datetime.max (0 if none) *)
 }.
 
 Record pstate := {
@@ -144,6 +147,8 @@ Definition load (st : pstate) (h : header) (es : list entry) : pstate :=
           | None => answer st h 5          (* len(relative_times) < 4 *)
           | Some lp =>
               if Z.of_nat (length tb) <? 4 then answer st h 5 else
+              (* end_time = start_time + timedelta(milliseconds=relative_times[-1]) overflows *)
+              if h_room h <? p_t lp * 1000 then answer st h 5 else
               let newtab := h_mode h =? 1 in
               {| tbl := tb; tck := Some tb; start := Some s;
                  lastc := Some (p_az lp, p_el lp);
@@ -173,7 +178,14 @@ Fixpoint bisect_left (tb : list point) (x : Q) : nat :=
   | p :: r => if zltq (p_t p) x then S (bisect_left r x) else 0%nat
   end.
 
-Definition int32b (z : Z) : bool := (-2147483648 <=? z) && (z <=? 2147483647).
+(* operating ranges in microdegrees: the p_Bahn setters clamp to [lo - 1, hi + 1] *)
+Record limits := { az_lo : Z; az_hi : Z; el_lo : Z; el_hi : Z }.
+Definition clamp (lo hi v : Z) : Z := Z.max (Z.min v (hi + 1)) (lo - 1).
+
+(* what the harness/oracle supplies about the spline at one instant: positions of both axes in
+   microdegrees, and whether the velocity/acceleration values written to the unclamped INT32
+   fields v_Bahn / a_Bahn fit *)
+Record sval := { s_az : Z; s_el : Z; s_fits : bool }.
 
 Definition set_track (st : pstate) (s : Z) (azb elb : Z) : pstate :=
   {| tbl := tbl st; tck := tck st; start := start st; lastc := lastc st;
@@ -189,57 +201,65 @@ Definition set_next (st : pstate) : pstate :=
      az_next := option_map p_az (hd_error (tbl st));
      el_next := option_map p_el (hd_error (tbl st)) |}.
 
-(* the spline values are written through the INT32 setters of p_Bahn: out of range raises *)
-Definition use_spline (st : pstate) (s : Z) (sv : Z * Z) : option pstate :=
+Definition bahn_of (lim : limits) (a e : Z) : Z * Z :=
+  (clamp (az_lo lim) (az_hi lim) a, clamp (el_lo lim) (el_hi lim) e).
+
+(* state 2 before the start time: only the positions are written (clamped) *)
+Definition use_spline0 (lim : limits) (st : pstate) (sv : sval) : pstate :=
   match tck st with
-  | None => Some (set_track st s (az_bahn st) (el_bahn st))
-  | Some _ => if int32b (fst sv) && int32b (snd sv) then Some (set_track st s (fst sv) (snd sv))
+  | None => st
+  | Some _ => let b := bahn_of lim (s_az sv) (s_el sv) in set_track st (pt_state st) (fst b) (snd b)
+  end.
+
+(* state 3: position, velocity and acceleration are written; v_Bahn / a_Bahn raise when the
+   value does not fit INT32 *)
+Definition use_spline (lim : limits) (st : pstate) (sv : sval) : option pstate :=
+  match tck st with
+  | None => Some st
+  | Some _ => if s_fits sv
+              then let b := bahn_of lim (s_az sv) (s_el sv) in
+                   Some (set_track st (pt_state st) (fst b) (snd b))
               else None
   end.
 
-(* the tracking part of update_status.  [sv0] / [sve]: int(round(1e6*splev(.))) of both axes at
-   0 and at the elapsed time [x] on the current az_tck / el_tck.  None: the call raises. *)
-Definition advance (sv0 sve : Z * Z) (st : pstate) (x : Q) : option pstate :=
+(* the tracking part of update_status.  [sv0] / [sve]: the spline of the current az_tck / el_tck
+   at 0 and at the elapsed time [x].  None: the call raises. *)
+Definition advance (lim : limits) (sv0 sve : sval) (st : pstate) (x : Q) : option pstate :=
   if pt_state st =? 0 then Some st else
   match start st with
   | None => None                        (* None + timedelta: TypeError *)
   | Some _ =>
       let st1 :=
         if pt_state st =? 2 then
-          if qneg x then use_spline st 2 sv0
-          else Some (set_track st 3 (az_bahn st) (el_bahn st))
-        else Some st in
-      match st1 with
-      | None => None
-      | Some st1 =>
-          if pt_state st1 =? 3 then
-            let i := bisect_left (tbl st1) x in
-            if (i =? length (tbl st1))%nat then
-              match lastc st1 with
-              | None => None               (* None[0]: TypeError *)
-              | Some (a, e) =>
-                  if int32b a && int32b e then
-                    Some {| tbl := []; tck := tck st1; start := start st1; lastc := lastc st1;
-                            pt_state := 4; pt_len := 0; pt_act := 0; pt_end := 0;
-                            interp := interp st1; cnt := cnt st1; cmd := cmd st1;
-                            ans := ans st1; pt_id := pt_id st1; az_bahn := a; el_bahn := e;
-                            az_next := az_next st1; el_next := el_next st1 |}
-                  else None
-              end
-            else
-              match use_spline st1 3 sve with
-              | None => None
-              | Some st2 =>
-                  let tb := skipn i (tbl st2) in
-                  let n := Z.of_nat (length tb) in
-                  Some (set_next
-                    {| tbl := tb; tck := tck st2; start := start st2; lastc := lastc st2;
-                       pt_state := 3; pt_len := n; pt_act := Z.of_nat i;
-                       pt_end := Z.max (n - 1) 0;
-                       interp := interp st2; cnt := cnt st2; cmd := cmd st2; ans := ans st2;
-                       pt_id := pt_id st2; az_bahn := az_bahn st2; el_bahn := el_bahn st2;
-                       az_next := az_next st2; el_next := el_next st2 |})
-              end
-          else Some (set_next st1)
-      end
+          if qneg x then use_spline0 lim st sv0
+          else set_track st 3 (az_bahn st) (el_bahn st)
+        else st in
+      if pt_state st1 =? 3 then
+        let i := bisect_left (tbl st1) x in
+        if (i =? length (tbl st1))%nat then
+          match lastc st1 with
+          | None => None               (* None[0]: TypeError *)
+          | Some (a, e) =>
+              let b := bahn_of lim a e in
+              Some {| tbl := []; tck := tck st1; start := start st1; lastc := lastc st1;
+                      pt_state := 4; pt_len := 0; pt_act := 0; pt_end := 0;
+                      interp := interp st1; cnt := cnt st1; cmd := cmd st1;
+                      ans := ans st1; pt_id := pt_id st1; az_bahn := fst b; el_bahn := snd b;
+                      az_next := az_next st1; el_next := el_next st1 |}
+          end
+        else
+          match use_spline lim st1 sve with
+          | None => None
+          | Some st2 =>
+              let tb := skipn i (tbl st2) in
+              let n := Z.of_nat (length tb) in
+              Some (set_next
+                {| tbl := tb; tck := tck st2; start := start st2; lastc := lastc st2;
+                   pt_state := 3; pt_len := n; pt_act := Z.of_nat i;
+                   pt_end := Z.max (n - 1) 0;
+                   interp := interp st2; cnt := cnt st2; cmd := cmd st2; ans := ans st2;
+                   pt_id := pt_id st2; az_bahn := az_bahn st2; el_bahn := el_bahn st2;
+                   az_next := az_next st2; el_next := el_next st2 |})
+          end
+      else Some (set_next st1)
   end.
